@@ -690,15 +690,20 @@ fn run_program(prog: &Prog, mode: &str, strategy: Strategy, sseed: u64, stats: &
     };
 
     let mut handles = Vec::new();
+    let tids: Arc<Mutex<Vec<u32>>> = Arc::new(Mutex::new(Vec::new()));
     for (i, ops) in prog.threads.iter().enumerate() {
         let sh = Arc::clone(&sh);
         let ops = ops.clone();
         let logs = Arc::clone(&logs);
         let baton = baton.clone();
+        let tids2 = Arc::clone(&tids);
         let tseed = sseed.wrapping_mul(31).wrapping_add(i as u64);
         handles.push(std::thread::spawn(move || {
             let mut log = Vec::new();
             let mut counter = 0u64;
+            if let Some(t) = mmv::report::current_tid() {
+                tids2.lock().unwrap().push(t);
+            }
             if let Some(b) = &baton {
                 b.start(i);
             } else {
@@ -723,7 +728,7 @@ fn run_program(prog: &Prog, mode: &str, strategy: Strategy, sseed: u64, stats: &
     // wall-clock watchdog: inconclusive, never a verdict (the logical detectors come first)
     let t0 = Instant::now();
     let mut panicked = false;
-    let mut idle = mmv::report::IdleWatch::new(6);
+    let mut idle = mmv::report::IdleWatch::for_threads(6, Arc::clone(&tids));
     loop {
         if handles.iter().all(|h| h.is_finished()) {
             break;
@@ -945,6 +950,16 @@ fn gen_park_prog(rng: &mut Rng) -> Prog {
         }
     }
     threads.push(t0);
+    if rng.chance(1, 3) {
+        // readers instead of writers: more than a read log of hits (and misses) while a maintainer
+        // may be parked after it has applied the reads
+        cfg.tti = Some(HOUR);
+        for _ in 0..rng.range(1, 2) {
+            let n = mini_moka::verif::constants::READ_LOG_SIZE as u64 + rng.range(1, 60);
+            threads.push((0..n).map(|i| COp::Get { k: (i % 7) as u32 }).collect());
+        }
+        return Prog { cfg, threads };
+    }
     for t in 0..rng.range(1, 2) {
         let mut v = Vec::new();
         let n = WRITE_LOG_SIZE as u64 + rng.range(1, 40);
